@@ -329,9 +329,9 @@ Section ExtCase.
     - injection H as _ <-. reflexivity.
   Qed.
 
-  Lemma cleanup_ext fuel earlier c st :
+  Lemma cleanup_ext fuel swallow earlier eph c st :
     wf_table (st_tbl st) ->
-    cleanup_and_finish r1 asm fuel earlier c st = cleanup_and_finish r2 asm fuel earlier c st.
+    cleanup_and_finish r1 asm fuel swallow earlier eph c st = cleanup_and_finish r2 asm fuel swallow earlier eph c st.
   Proof. intros Hwf. unfold cleanup_and_finish. now rewrite (exec_phase_ext fuel PhCleanup _ st Hwf). Qed.
 
   Theorem run_case_ext fuel cwd tbl c oracle :
@@ -356,7 +356,7 @@ Section ExtCase.
     rewrite (exec_phase_ext fuel PhAssert (tc_assert c) st3 W3).
     destruct (exec_phase r2 asm fuel PhAssert (tc_assert c) st3) as [[s4 st4]|e] eqn:E4; [|reflexivity].
     pose proof (exec_phase_wf r2 fuel PhAssert _ _ _ _ W3 E4) as W4.
-    now apply cleanup_ext.
+    destruct s4; now apply cleanup_ext.
   Qed.
 End ExtCase.
 
@@ -582,4 +582,18 @@ Proof.
       now apply IH.
     + rewrite <- acc_app_assoc. change (PRef n1 (acc_app (acc_app a1 a0) a)) with (new_accumulated (PRef n1 (acc_app a1 a0)) a).
       now apply IH.
+Qed.
+
+(** ** which failure is reported when [cleanup] fails too (executor.py) *)
+Lemma cleanup_reported r asm fuel swallow earlier eph c st res :
+  cleanup_and_finish r asm fuel swallow earlier eph c st = Ok res ->
+  exists sc stc, exec_phase r asm fuel PhCleanup (tc_cleanup c) st = Ok (sc, stc) /\
+    (rs_verdict res, rs_phase res) =
+    match sc with
+    | StPass => (earlier, eph)
+    | _ => if swallow then (earlier, eph) else (sc, phase_code PhCleanup)
+    end.
+Proof.
+  unfold cleanup_and_finish. destruct (exec_phase r asm fuel PhCleanup (tc_cleanup c) st) as [[sc stc]|e]; [|discriminate].
+  intros H. exists sc, stc. split; [reflexivity|]. destruct sc, swallow; injection H as <-; reflexivity.
 Qed.
